@@ -528,4 +528,14 @@ pub fn boundary_cases(run: &mut Run, env: &[(String, Value)], thorough: bool) {
             check_expr(run, env, &e, "edge:");
         }
     }
+    // REAL x REAL comparisons over the edge values (signed zeros, infinities, subnormals, extremes): "numbers compare
+    // numerically", so -0.0 = 0.0 and the order is the order of the reals (NaN operands are left open by the oracle)
+    for xb in F64_EDGE_BITS {
+        for yb in F64_EDGE_BITS {
+            for op in &ops {
+                let e = ExpressionTree::Compare { operator: op.clone(), left: bx(lit(Value::Float(Float(f64::from_bits(*xb))))), right: bx(lit(Value::Float(Float(f64::from_bits(*yb))))) };
+                check_expr(run, env, &e, "edge:");
+            }
+        }
+    }
 }
